@@ -199,12 +199,16 @@ impl Cc14Mon {
                 // carrier twin: the same message as StructuredShortMessage (and as a foreign
                 // implementor) fed to a copy of the prior state must give the same result and state
                 {
-                    let st = m.to_structured();
                     let mut twin = before;
-                    let g2 = api("ControlChange14BitMessageScanner::feed", || twin.feed(&st));
-                    let fo: crate::carriers::Foreign = m.to_other();
+                    let g2 = api("ControlChange14BitMessageScanner::feed", || {
+                        let st = m.to_structured();
+                        twin.feed(&st)
+                    });
                     let mut twin3 = before;
-                    let g3 = api("ControlChange14BitMessageScanner::feed", || twin3.feed(&fo));
+                    let g3 = api("ControlChange14BitMessageScanner::feed", || {
+                        let fo: crate::carriers::Foreign = m.to_other();
+                        twin3.feed(&fo)
+                    });
                     if g2 != Some(got) || twin != self.real || g3 != Some(got) || twin3 != self.real {
                         crate::viol!(
                             rep,
@@ -391,12 +395,16 @@ impl PnMon {
                 let gotp = got.as_ref().map(pnm);
                 rep.count("pn_feeds", 1);
                 {
-                    let st = m.to_structured();
                     let mut twin = before;
-                    let g2 = api("ParameterNumberMessageScanner::feed", || twin.feed(&st));
-                    let fo: crate::carriers::Foreign = m.to_other();
+                    let g2 = api("ParameterNumberMessageScanner::feed", || {
+                        let st = m.to_structured();
+                        twin.feed(&st)
+                    });
                     let mut twin3 = before;
-                    let g3 = api("ParameterNumberMessageScanner::feed", || twin3.feed(&fo));
+                    let g3 = api("ParameterNumberMessageScanner::feed", || {
+                        let fo: crate::carriers::Foreign = m.to_other();
+                        twin3.feed(&fo)
+                    });
                     if g2 != Some(got) || twin != self.real || g3 != Some(got) || twin3 != self.real {
                         crate::viol!(
                             rep,
